@@ -61,7 +61,7 @@ def operand_choices(name):
     if kd == 'lv1':
         vals = [('d', n) for n in (0, 1, -1, 127, 128, -129, 255, 256, 2 ** 31, -(2 ** 31))] + \
                [('x', bytes(range(1, 1 + n)) if n < 200 else b'\xab' * n) for n in (1, 2, 127, 128, 255)] + [('x', b'\x00\x05'), ('x', b'\xff\xfe')] + \
-               [('s', 'a'), ('s', 'hello world'), ('s', 'é'), ('f', 1.5), ('f', -2.0)]
+               [('s', 'a'), ('s', 'hello world'), ('s', 'é'), ('f', 1.5), ('f', -2.0), ('fi', -7), ('fi', 3)]
         return [[v] for v in vals]
     if kd == 'lv2':
         vals = [('x', b'\xcd' * n) for n in (1, 255, 256, 32767, 32768, 65535)] + [('d', 1), ('d', -70000), ('s', 'str')]
@@ -70,7 +70,8 @@ def operand_choices(name):
         return [[k, c] for k in (('x', b'k'), ('s', 'key'), ('x', b'\x11' * 255), ('s', 'P'))
                 for c in (('d', 0), ('d', 1), ('d', 255), ('x', b'\xff'), ('x', b'\x02'))]
     if kd == 'f32':
-        return [[v] for v in (('f', 2.0), ('f', -3.0), ('f', 1.5), ('x', b'\x3f\xc0\x00\x00'), ('x', b'\x7f\x80\x00\x00'))]
+        return [[v] for v in (('f', 2.0), ('f', -3.0), ('f', 1.5), ('fi', 2), ('fi', -3), ('fi', 0), ('fi', -1), ('fi', 16777217),
+                              ('x', b'\x3f\xc0\x00\x00'), ('x', b'\x7f\x80\x00\x00'))]
     if kd == 'u8u8':
         return [[a, b] for a in U8D[:3] + [('x', b'\x80'), ('x', b'\xff')] for b in (U8D[0], U8D[4], ('x', b'\x01'))]
     if kd == 'ms':
@@ -121,6 +122,36 @@ def instr_case(ctx, name):
             ctx.state((name, src))
             judge(ctx, prog, src, {'family': 'instruction', 'op': name}, expect)
     ctx.evaluations += n - 1
+
+
+def first_choice(name):
+    ch = operand_choices(name)
+    # prefer an x / s valued operand (the look-ahead of PUSH1 / PUSH2 style parsers is about the symbol after the value)
+    for ops in ch:
+        if ops and ops[0][0] in ('x',):
+            return ops
+    return ch[0]
+
+
+def pair_case(ctx, name):
+    """every instruction followed directly by every other instruction, in OP_ and bare spellings: nothing swallowed"""
+    plain = [nm for nm in OPNAMES if refasm.kind(nm) != 'block']
+    n = 0
+    s1 = ('I', name, first_choice(name))
+    alts = [s1] + ([('I', name, [('s', 'str')])] if refasm.kind(name) in ('lv1', 'lv2') else [])
+    for s1 in alts:
+        for nm2 in plain:
+            prog = [s1, ('I', nm2, first_choice(nm2)), SENT_B]
+            try:
+                expect = refasm.encode_prog(prog)
+            except AsmError:
+                continue
+            for st in (Style(prefix='', case='upper'), Style(prefix='', case='lower'), Style(prefix='OP_', case='lower')):
+                n += 1
+                src = refasm.source(prog, st)
+                ctx.state((src,))
+                judge(ctx, prog, src, {'family': 'instruction pairs', 'first': name}, expect)
+    ctx.evaluations += max(n - 1, 0)
 
 
 def push_case(ctx, v):
@@ -405,6 +436,8 @@ def blocks(tier, seed):
     bl = [
         Block('A_instructions_x_operands_x_spellings', plain, instr_case,
               'every non-block instruction x operand boundary values x every name spelling / case / value style', nshards=len(plain)),
+        Block('A_instruction_pairs', plain, pair_case,
+              'every instruction directly followed by every other instruction, OP_ and bare names, upper and lower case', nshards=len(plain)),
         Block('A_push_sugar', push_values(), push_case, 'PUSH picks the smallest push', nshards=16),
         Block('A_nop_codes', list(range(92, 256)), nop_case, 'NOP92..255 x count bytes', nshards=32),
         Block('B_control_programs_x_styles', lambda s, n: spaces.progs_upto(nfull, 'full', s, n), ctrl_case,
